@@ -102,6 +102,52 @@ fn one<X: Sx, Y: Sx>(ctx: &Ctx, idx: u64, l: usize, m: usize, all_flips: bool) {
             }
         }
     }
+    // a commitment shifted by a small-order point (outside the prime-order subgroup) with its Fiat-Shamir
+    // challenge ground so that the verification equation still holds (c = 0 mod 3 kills the torsion part)
+    if let Some(t3) = crate::c04::order3_point(&mut r) {
+        use crate::refimpl as rf;
+        use group::Curve;
+        let api = X::ID.blind_api_id();
+        let gens = rf::blind_generators(X::ID, m + 1);
+        let cms = rf::messages_to_scalars(X::ID, &cm, &api).unwrap();
+        let mut built = false;
+        for _ in 0..40 {
+            let blind2 = crate::c04::rand_scalar(&mut r);
+            let st = crate::c04::rand_scalar(&mut r);
+            let mt: Vec<bls12_381_plus::Scalar> = (0..m).map(|_| crate::c04::rand_scalar(&mut r)).collect();
+            let mut c = gens[0] * blind2;
+            let mut cbar = gens[0] * st;
+            for i in 0..m {
+                c += gens[1 + i] * cms[i];
+                cbar += gens[1 + i] * mt[i];
+            }
+            let tainted = c + t3;
+            // challenge as the verifier will recompute it (over the tainted point)
+            let dst = [&api[..], b"H2S_"].concat();
+            let mut v = rf::i2osp8(m as u64).to_vec();
+            for g in &gens {
+                v.extend_from_slice(&rf::g1_c(g));
+            }
+            v.extend_from_slice(&tainted.to_affine().to_compressed());
+            v.extend_from_slice(&rf::g1_c(&cbar));
+            let ch = rf::hash_to_scalar(X::ID, &v, &dst).unwrap();
+            if ch.to_be_bytes().iter().fold(0u32, |a, b| (a * 256 + *b as u32) % 3) != 0 {
+                continue;
+            }
+            let mut out = tainted.to_affine().to_compressed().to_vec();
+            out.extend_from_slice(&rf::scalar_be(&(st + blind2 * ch)));
+            for i in 0..m {
+                out.extend_from_slice(&rf::scalar_be(&(mt[i] + cms[i] * ch)));
+            }
+            out.extend_from_slice(&rf::scalar_be(&ch));
+            sign_with("torsion-tainted-point-with-ground-challenge", "-".into(), &out);
+            built = true;
+            break;
+        }
+        if built {
+            ctx.count("torsion_tainted_commitments_built", 1);
+        }
+    }
     // commitment made under the other suite
     if let Some((comy, _)) = ctx.call("commit", &base, None, || Com::<Y>::commit(Some(&cm))).value {
         sign_with("other-suite", "-".into(), &comy.to_bytes());
